@@ -170,6 +170,19 @@ Definition cow_step (st : cstate) (o : op) : cstate * res :=
   | Create p => cow_openfile sb sl tbl p (Z.lor (Z.lor o_create o_trunc) o_rdwr) 438
   | Open p => cow_open sb sl tbl p
   | Mkdir p perm =>
+    if Z.eqb cow_mkdir_checks_union 1 then
+      (* since the fix: `if _, err := u.Stat(name); err == nil { EEXIST }` then layer.MkdirAll *)
+      match lstep sl (Stat p) with
+      | (sl1, RInfo _) => ret sb sl1 tbl (RErr (EW KExist))
+      | (sl1, r) =>
+        let '(sb1, found) :=
+          if cow_is_not_exist (err_of r)
+          then match bstep sb (Stat p) with (sb1, RInfo _) => (sb1, true) | (sb1, _) => (sb1, false) end
+          else (sb, false) in
+        if found then ret sb1 sl1 tbl (RErr (EW KExist))
+        else let '(sl2, r2) := lstep sl1 (MkdirAll p perm) in ret sb1 sl2 tbl r2
+      end
+    else
     match b_is_dir sb p with
     | (sb1, inr _) => let '(sl1, r) := lstep sl (MkdirAll p perm) in ret sb1 sl1 tbl r
     | (sb1, inl true) => ret sb1 sl tbl (RErr (E KExist))
